@@ -64,6 +64,8 @@ def main():
     sys.addaudithook(hook)
     snap_grid = codec.canon(g)
     snap_look = lookups()
+    from hszinc import zoneinfo as _zi
+    snap_tz = (sorted(_zi.get_tz_map().items()), sorted(_zi.get_tz_rmap().items()))
     reports = []
     for text in req['filters']:
         mods = set(sys.modules)
@@ -99,6 +101,10 @@ def main():
             problems.append('the hszinc namespace changed')
         if codec.canon(g) != snap_grid:
             problems.append('the grid was modified')
+        now_tz = (sorted(_zi.get_tz_map().items()), sorted(_zi.get_tz_rmap().items()))
+        if now_tz != snap_tz:
+            problems.append('the time-zone tables of hszinc.zoneinfo changed: %r' % (sorted(set(now_tz[0]) ^ set(snap_tz[0]))[:3],))
+            snap_tz = now_tz
         now = lookups()
         if now != snap_look:
             problems.append('the grid answers look-ups by key differently after the evaluation: %r' % ([(a, b) for a, b in zip(snap_look[0], now[0]) if a != b][:3],))
